@@ -91,6 +91,48 @@ def _floor_of(w, v, what):
     return False, False
 
 
+def _bbox_cases(f, body, lo, li, c1, c2):
+    """The cells examined for a segment depend on the end points only through floor/ceil/min/max and the grid size:
+    evaluate the bounds (the statements before the double loop and the two range() arguments - nothing else) on the finite case
+    domain {integer, half-integer} coordinates x small non-square grids.  Returns per axis the first case where a required
+    cell is not examined ('missing') or a cell outside the grid is ('outside')."""
+    import math
+    from .. import orders
+    funcs = {'floor': math.floor, 'ceil': math.ceil, 'round': round, 'trunc': math.trunc}
+    out = {'columns': {'missing': None, 'outside': None, 'cases': 0}, 'rows': {'missing': None, 'outside': None, 'cases': 0}}
+    pre = body[:body.index(lo)]
+    for S1, S2 in ((2, 3), (3, 2)):
+        xs = [k / 2 for k in range(2 * S1 + 1)]
+        ys = [k / 2 for k in range(2 * S2 + 1)]
+        for x1 in xs:
+            for x2 in xs:
+                for y1 in ys:
+                    for y2 in ys:
+                        env = {c1: (x1, y1), c2: (x2, y2), 'self.csize': S1, 'self.lsize': S2}
+                        try:
+                            orders.run_block(pre, env, funcs)
+                            cols = list(orders.ev(lo.iter, env, funcs))
+                            rows = set()
+                            for i in cols:
+                                env[lo.target.id] = i
+                                pre_in = lo.body[:lo.body.index(li)]
+                                orders.run_block(pre_in, env, funcs)
+                                rows_i = list(orders.ev(li.iter, env, funcs))
+                                rows = set(rows_i) if not rows else rows & set(rows_i)
+                        except orders.Unsupported as ex:
+                            raise shape_error('__cellsCrossSegment: cell range not evaluable on the case domain (%s)' % ex, f.loc(lo))
+                        for nm, got, a, b, S in (('columns', set(cols), x1, x2, S1), ('rows', rows, y1, y2, S2)):
+                            need = set(range(min(min(math.floor(a), math.floor(b)), S - 1), min(max(math.floor(a), math.floor(b)), S - 1) + 1))
+                            o = out[nm]
+                            o['cases'] += 1
+                            case = {'end points': [[x1, y1], [x2, y2]], 'grid (columns, rows)': [S1, S2], 'examined': sorted(got)}
+                            if o['missing'] is None and not need <= got:
+                                o['missing'] = dict(case, **{'not examined': sorted(need - got)})
+                            if o['outside'] is None and any(k < 0 or k >= S for k in got):
+                                o['outside'] = dict(case, **{'outside the grid': sorted(k for k in got if k < 0 or k >= S)})
+    return out
+
+
 def rule_B(ctx):
     """C08.B cells crossed by a segment"""
     f = _m(ctx, '__cellsCrossSegment')
@@ -103,21 +145,12 @@ def rule_B(ctx):
     li = [x for x in lo.body if isinstance(x, ast.For)][0]
     w = Walker(f, loop_mode='skip')
     pre = [o for o in w.run(body[:body.index(lo)], State()) if o.kind == 'fall'][0].state
-    for l, k, size, nm in ((lo, 0, 'self.csize', 'columns'), (li, 1, 'self.lsize', 'rows')):
-        r = w.range_info(l.iter, pre)
-        if r is None:
-            raise shape_error('cell loop is not a range', f.loc(l))
-        lo_t = vr(r[0])
-        fl1, fl2 = 'floor(%s[%d])' % (c1, k), 'floor(%s[%d])' % (c2, k)
-        oklo = lo_t == 'min(%s)' % ', '.join(sorted([fl1, fl2])) or (lo_t.startswith('min(') and ('min(%s)' % ', '.join(sorted([fl1, fl2]))) in lo_t and ('-1 + %s' % size) in lo_t)
-        hi = r[1] - Rat.const(1)
-        hi_t = vr(hi)
-        mx = 'max(%s)' % ', '.join(sorted([fl1, fl2]))
-        okhi = hi_t == mx or (hi_t.startswith('min(') and mx in hi_t and ('-1 + %s' % size) in hi_t)
-        ctx.check(oklo and okhi and vr(r[2]) == '1', 'C08.B', f,
-                  '%s examined run from the smaller to the larger floored end-point index, inclusive' % nm,
-                  witness={'range': [vr(r[0]), vr(r[1])], 'expected': ['min(floor, floor)', 'max(floor, floor) + 1 (optionally clipped to the grid)'],
-                           'why': 'with ceil / an exclusive upper bound, a vertex lying exactly on a cell border loses its cell'}, node=l, key='bbox:' + nm)
+    for nm, res in _bbox_cases(f, body, lo, li, c1, c2).items():
+        ctx.check(res['missing'] is None, 'C08.B', f,
+                  '%s examined cover every cell from the smaller to the larger floored end-point index (upper border folded into the last one)' % nm,
+                  witness={'case': res['missing'], 'cases evaluated': res['cases'],
+                           'why': 'a cell holding an end point (or lying between the end points) is not examined, so the segment is not registered there'},
+                  node=lo if nm == 'columns' else li, key='bbox:' + nm)
     iv, jv = lo.target.id, li.target.id
     st = pre.fork()
     st.events = []
@@ -156,6 +189,35 @@ def rule_B(ctx):
     inside = [o for o in outs if any(e.kind == 'call' and e.name == 'append' for e in o.state.events) and
               not any(e.kind == 'call' and e.name == 'isSegmentIntersects' for e in o.state.events)]
     ctx.check(bool(inside), 'C08.B', f, 'a cell that contains the whole segment is added too', witness={}, node=li, key='inside')
+    # the containment test must hold whenever both end points are strictly inside the cell (I, J): every conjunct has to follow from
+    # I < x < I+1 and J < y < J+1 (a segment strictly inside meets no side, so this arm is the only one that can register it)
+    box = {'%s[0]' % c1: 'I', '%s[0]' % c2: 'I', '%s[1]' % c1: 'J', '%s[1]' % c2: 'J'}
+    for o in inside[:1]:
+        for c, _ in o.state.conds:
+            for cj in c.conjuncts():
+                if cj.kind != 'cmp' or not (isinstance(cj.a, Rat) and isinstance(cj.b, Rat)) or cj.op not in ('<', '<='):
+                    if 'coord' in repr(cj) or c1 in repr(cj) or c2 in repr(cj):
+                        raise shape_error('__cellsCrossSegment: containment test not understood: %r' % cj, f.loc(li))
+                    continue
+                d = cj.b - cj.a            # cj says d > 0 (or >= 0)
+                cs = [a for a in d.atoms() if a in box]
+                if not cs:
+                    continue
+                if len(cs) != 1 or not d.ispoly():
+                    raise shape_error('__cellsCrossSegment: containment test not understood: %r' % cj, f.loc(li))
+                a = cs[0]
+                k = d.n.coeff(a)
+                if not (k.isconst() and abs(k.constval()) == 1):
+                    raise shape_error('__cellsCrossSegment: containment test not understood: %r' % cj, f.loc(li))
+                lowb = Rat.atom(box[a])
+                # coordinate strictly between lowb and lowb+1: substitute the worst case
+                worst = d.subst(a, lowb + Rat.const(1)) if k.constval() < 0 else d.subst(a, lowb)
+                good = worst.isconst() and worst.constval() >= 0
+                ctx.check(good, 'C08.B', f, 'the containment test accepts every segment lying strictly inside the cell (each bound is the bound of this cell, same axis)',
+                          witness={'conjunct': repr(cj), 'coordinate': a, 'must follow from': '%s < %s < %s + 1' % (box[a], a, box[a]),
+                                   'slack at the cell border': repr(worst),
+                                   'why': 'for a cell with I != J a segment strictly inside it fails this test, meets no side of the cell and is registered nowhere'},
+                          node=li, key='inside:' + a + (':up' if k.constval() < 0 else ':low'))
     if n_append < 4:
         raise shape_error('__cellsCrossSegment: fewer than four side tests lead to an append', f.loc(li))
 
@@ -277,19 +339,41 @@ def rule_I(ctx):
                 sites.append((g, c))
     if len(sites) < 2:
         raise shape_error('point forms of request/neighborhood not found')
+    import math
+    from .. import orders
+    funcs = {'floor': math.floor, 'ceil': math.ceil, 'round': round, 'trunc': math.trunc}
     for g, c in sites:
-        a0, a1 = unparse(c.args[0]), unparse(c.args[1])
-        ok = a0.startswith('min(') and 'self.csize - 1' in a0 and a1.startswith('min(') and 'self.lsize - 1' in a1
-        ctx.check(ok, 'C08.I', g,
-                  'a point on the upper border (fractional index == size) is folded into the last column/row before the grid is addressed',
-                  witness={'cell arguments': [a0, a1], 'why': 'x == xmax is admitted by __getCell and floors to index csize, which does not exist (IndexError)'},
+        # the two cell arguments depend on the fractional cell only through floor/min/max: evaluate them at the border classes
+        names = sorted({n.id for a in c.args[:2] for n in ast.walk(a) if isinstance(n, ast.Name) and n.id not in ('min', 'max', 'math', 'self', 'int')})
+        if len(names) != 1:
+            raise shape_error('%s: cell arguments of the point form not understood' % g.name, g.loc(c))
+        bad = None
+        for S1, S2 in ((2, 3), (3, 2)):
+            for fx in (0.0, 0.5, S1 - 0.5, float(S1)):
+                for fy in (0.0, 0.5, S2 - 0.5, float(S2)):
+                    env = {names[0]: (fx, fy), 'self.csize': S1, 'self.lsize': S2}
+                    try:
+                        i, j = orders.ev(c.args[0], env, funcs), orders.ev(c.args[1], env, funcs)
+                    except orders.Unsupported as ex:
+                        raise shape_error('%s: cell arguments of the point form not evaluable (%s)' % (g.name, ex), g.loc(c))
+                    want = (min(math.floor(fx), S1 - 1), min(math.floor(fy), S2 - 1))
+                    if bad is None and (i, j) != want:
+                        bad = {'fractional cell': [fx, fy], 'grid (columns, rows)': [S1, S2], 'cell addressed': [i, j], 'cell containing the point': list(want)}
+        ctx.check(bad is None, 'C08.I', g,
+                  'a point of the closed extent addresses the cell that contains it (upper border folded into the last column/row)',
+                  witness={'case': bad, 'why': 'x == xmax is admitted by __getCell and floors to index csize, which does not exist (IndexError); any other cell misses the features registered where the point is'},
                   node=c, key='clamp:' + g.name)
     h = _m(ctx, '__cellsCrossSegment')
-    t = unparse(h.node)
-    ok = re.search(r'xmax = min\(xmax, self\.csize - 1\)', t) and re.search(r'ymax = min\(ymax, self\.lsize - 1\)', t) and \
-        re.search(r'xmin = min\(xmin, self\.csize - 1\)', t) and re.search(r'ymin = min\(ymin, self\.lsize - 1\)', t)
-    ctx.check(bool(ok), 'C08.I', h, 'the cell bounding box of a segment (both bounds) is clipped to the last column/row',
-              witness={'why': 'a vertex on the upper border would otherwise enumerate column csize'}, node=h.node, key='clamp:cells')
+    hb = body_nodocstring(h)
+    hl = [x for x in hb if isinstance(x, ast.For)]
+    if len(hl) != 1 or not any(isinstance(x, ast.For) for x in hl[0].body):
+        raise shape_error('__cellsCrossSegment: double loop not found', h.loc())
+    hli = [x for x in hl[0].body if isinstance(x, ast.For)][0]
+    for nm, res in _bbox_cases(h, hb, hl[0], hli, h.params[1], h.params[2]).items():
+        ctx.check(res['outside'] is None, 'C08.I', h, 'the %s examined for a segment inside the closed extent all exist in the grid' % nm,
+                  witness={'case': res['outside'], 'cases evaluated': res['cases'],
+                           'why': 'a vertex on the upper border floors to index == size; the cell list is used to address the grid (IndexError)'},
+                  node=hl[0], key='clamp:cells:' + nm)
 
 
 def rule_T(ctx):
